@@ -488,6 +488,12 @@ func writeComputedFieldExpression(w *formatting.IndentedWriter, expression dsl.E
 					// the same holds for the sign of a negative literal
 					requiresParentheses = true
 				}
+				if l, ok := t.Left.(*dsl.BinaryExpression); ok && t.Operator == dsl.BinaryOpPow && l.Operator == dsl.BinaryOpPow {
+					if _, negated := l.Right.(*dsl.UnaryExpression); negated || isNegativeLiteral(l.Right) {
+						// a ^ -b ^ c is a ^ -(b ^ c) in MATLAB: keep the left power together
+						requiresParentheses = true
+					}
+				}
 
 				if requiresParentheses {
 					w.WriteString("(")
